@@ -3,6 +3,8 @@
 # as found in the LICENSE.txt file.
 from __future__ import annotations
 
+import threading
+
 from typing import TYPE_CHECKING, Final, final
 
 from .._i_date_time_zone_provider import IDateTimeZoneProvider
@@ -65,6 +67,7 @@ class DateTimeZoneCache(IDateTimeZoneProvider):
         self.__ids: Iterable[str] = sorted(provider_ids)
 
         # Populate the dictionary with null values meaning "the ID is valid, we haven't fetched the zone yet".
+        self.__lock: Final[threading.Lock] = threading.Lock()
         self.__time_zone_map: Final[dict[str, DateTimeZone | None]] = {}
         for id_ in self.__ids:
             self.__time_zone_map[id_] = None
@@ -91,7 +94,12 @@ class DateTimeZoneCache(IDateTimeZoneProvider):
                 raise InvalidDateTimeZoneSourceError(
                     f"Time zone {zone_id} is supported by source {self.version_id} but not returned"
                 )
-            self.__time_zone_map[zone_id] = zone
+            # Another thread may have loaded the same zone in the meantime: whichever was stored first wins, so that
+            # repeated and concurrent lookups all return the same instance (like ConcurrentDictionary.GetOrAdd).
+            with self.__lock:
+                if (existing := self.__time_zone_map.get(zone_id)) is not None:
+                    return existing
+                self.__time_zone_map[zone_id] = zone
 
         return zone
 
